@@ -358,7 +358,11 @@ func (e *Exec) Run() {
 		case "simulate":
 			e.simulateOnly(st)
 		case "upgrade":
-			e.nextPlan = &upgradetypes.Plan{Name: "v2.2.1", Height: e.head() + 2, Info: "panasim"}
+			name := "v2.2.1"
+			if st.PlanName != "" {
+				name = st.PlanName
+			}
+			e.nextPlan = &upgradetypes.Plan{Name: name, Height: e.head() + 2, Info: "panasim"}
 		}
 	}
 	if !e.stop && !e.S.Config.EpilogueOff {
@@ -896,6 +900,8 @@ func rejectPropOf(m sdk.Msg, why string) string {
 			return "C05"
 		case "document id differs from did":
 			return "C11"
+		case "proof made over another sequence":
+			return "C04"
 		}
 		return "C03"
 	case "pnft":
